@@ -4,7 +4,7 @@
    val     : the mixed-type universe of the property (scalars and nested tuples / lists / dicts).
              A finite number is twice/2 (generators emit half-integers of magnitude < 2^50 so python floats are exact);
              numpy scalars / datetime.date are mapped by the harness to the primitive as_primitive gives them.
-   cmp     : transcribes _sort.cmp: ints -> float, rank of str(type(x)), len0, dicts by sorted items (keys, then values),
+   cmp     : transcribes _sort.cmp: ints -> float, rank of str(type(x)), len0, dicts by items sorted by cmp of their keys (keys, then values; keys of any type),
              NaN / +-inf |-> +inf, containers lexicographic (zip), else native <.
              One REPAIRED point: two (distinct) empty dicts compare 0 (the pinned code raises ValueError from
              `xk, xv = zip( *sorted(x.items()))`; see fixes/C07.patch).
@@ -27,7 +27,7 @@ Inductive val :=
 | VDate (us : Z)
 | VTuple (l : list val)
 | VList (l : list val)
-| VDict (items : list (list N * val)).
+| VDict (items : list (val * val)).        (* (key, value) in insertion order; keys are any hashable values *)
 
 (* ---- comparisons as [comparison]; cmp maps to -1/0/1 at the end *)
 Definition c2z (c : comparison) : Z := match c with Lt => -1 | Eq => 0 | Gt => 1 end.
@@ -79,23 +79,6 @@ Definition cmp_ext (a b : option Z) : comparison :=
   | None, None => Eq
   end.
 
-(* sorted(x.items()) for string keys *)
-Fixpoint ins_item (kv : list N * val) (l : list (list N * val)) : list (list N * val) :=
-  match l with
-  | [] => [kv]
-  | kv' :: l' => match cmp_str (fst kv) (fst kv') with Gt => kv' :: ins_item kv l' | _ => kv :: l end
-  end.
-Definition sort_items (l : list (list N * val)) := fold_right ins_item [] l.
-
-(* every dict, at every depth, with its items in sorted-key order *)
-Fixpoint norm (v : val) : val :=
-  match v with
-  | VTuple l => VTuple (map norm l)
-  | VList l => VList (map norm l)
-  | VDict items => VDict (sort_items (map (fun kv => let '(k, x) := kv in (k, norm x)) items))
-  | _ => v
-  end.
-
 Definition body_scalar (x y : val) : comparison :=
   match x, y with
   | VNone, VNone => Eq
@@ -105,16 +88,33 @@ Definition body_scalar (x y : val) : comparison :=
   | _, _ => cmp_ext (numkey x) (numkey y)
   end.
 
-(* cmp on values whose dicts are already in sorted-key order *)
+(* cmp on values whose dicts are already in sorted-key order (keys compared by cmp itself, then the values) *)
 Fixpoint cmpn (x y : val) {struct x} : comparison :=
   thenc (Z.compare (rank x) (rank y))
  (thenc (Z.compare (len0 x) (len0 y))
    match x, y with
    | VTuple a, VTuple b => lexz cmpn a b
    | VList a, VList b => lexz cmpn a b
-   | VDict a, VDict b => thenc (lexp fst cmp_str a b) (lexp snd cmpn a b)
+   | VDict a, VDict b => thenc (lexp fst cmpn a b) (lexp snd cmpn a b)
    | _, _ => body_scalar x y
    end).
+
+(* sorted(x.items(), key = lambda item: Cmp(item[0])): a stable sort of the items by cmp of their keys (keys of mixed types allowed) *)
+Fixpoint ins_item (kv : val * val) (l : list (val * val)) : list (val * val) :=
+  match l with
+  | [] => [kv]
+  | kv' :: l' => match cmpn (fst kv) (fst kv') with Gt => kv' :: ins_item kv l' | _ => kv :: l end
+  end.
+Definition sort_items (l : list (val * val)) := fold_right ins_item [] l.
+
+(* every dict, at every depth, with its items in sorted-key order *)
+Fixpoint norm (v : val) : val :=
+  match v with
+  | VTuple l => VTuple (map norm l)
+  | VList l => VList (map norm l)
+  | VDict items => VDict (sort_items (map (fun kv => let '(k, x) := kv in (norm k, norm x)) items))
+  | _ => v
+  end.
 
 Definition cmpc (x y : val) : comparison := cmpn (norm x) (norm y).
 Definition cmp (x y : val) : Z := c2z (cmpc x y).
